@@ -91,7 +91,7 @@ impl Stdfs {
 //@ ins before ⟦match path {⟧
                 proof { reveal_with_fuel(walk, 2); }
 //@ endins
-//@ ins before ⟦return Ok(curr);⟧
+//@ ins afterloop 1
             proof { reveal_with_fuel(walk, 2); }
 //@ endins
 //@ loop 1
@@ -120,7 +120,7 @@ impl Stdfs {
 //@ ins before ⟦match path {⟧
                 proof { reveal_with_fuel(walk, 2); }
 //@ endins
-//@ ins before ⟦return Ok(curr);⟧
+//@ ins afterloop 1
             proof { reveal_with_fuel(walk, 2); }
 //@ endins
 //@ loop 1
